@@ -243,10 +243,22 @@ static void run_args_once(args_a *a, FILE *out, int forced_desc) {
         uint64_t fl = a->a[4] == 0 ? s->flen : (a->a[4] == 1 ? 0 : (a->a[4] == 2 ? 79 : (a->a[4] == 3 ? 70 : 1)));
         int dest = a->a[5] == 0 ? 0 : (a->a[5] == 1 ? -1 : (a->a[5] == 2 ? s->n : 0x7fffffff));
         char **fr = s->all + 1;
+        char *alt[80]; unsigned char *crafted = NULL;
+        if (a->a[6]) {
+            /* an out-of-range destination together with a list entry that "carries" that index: a buffer without the
+               magic (the index getter answers -1 for it), or a well-formed fragment re-sealed with that very index */
+            for (int q = 0; q < s->n - 1; q++) alt[q] = s->all[1 + q];
+            crafted = malloc(s->flen); memcpy(crafted, s->all[1], s->flen);
+            if (a->a[6] == 1) memset(crafted, 0x5a, s->flen);
+            else { uint32_t v = (uint32_t)dest; memcpy(crafted, &v, 4); reseal(crafted); }
+            alt[a->a[6] == 1 ? 0 : (s->n - 2)] = (char *)crafted;
+            fr = alt;
+        }
         if (a->a[4] >= 3) { fr = short_guarded(s->all + 1, s->n - 1, fl); if (g_progress) snprintf(g_progress, 200, "in reconstruct with fragment_len=%llu and buffers of exactly that size", (unsigned long long)fl); }
         rc = liberasurecode_reconstruct_fragment(d, a->a[1] ? NULL : fr, n, fl, dest, a->a[2] ? NULL : of);
         free(of);
-        if (fr != s->all + 1) free(fr);
+        if (fr != s->all + 1 && fr != alt) free(fr);
+        free(crafted);
         break; }
     case A_NEED: {
         int r[3] = { 0, -1, -1 }, x[2] = { -1, -1 }, o[64];
@@ -329,9 +341,15 @@ void suite_args(int tier) {
             if (d >= 5 && (m || nc || lc || dc)) continue;
             if (!tier && d > 0 && (nc + lc + dc) % 3) continue;
             if (lc >= 3 && (m & 1)) continue;
-            a.a[0] = d; a.a[1] = m & 1; a.a[2] = (m >> 1) & 1; a.a[3] = nc; a.a[4] = lc; a.a[5] = dc;
+            a.a[0] = d; a.a[1] = m & 1; a.a[2] = (m >> 1) & 1; a.a[3] = nc; a.a[4] = lc; a.a[5] = dc; a.a[6] = 0;
             args_emit(&a, 6);
         }
+        /* two bad things at once: an out-of-range destination and a list entry carrying that "index" */
+        for (int dc = 1; dc < 4; dc++) for (int v = 1; v <= 2; v++) {
+            a.a[0] = 0; a.a[1] = 0; a.a[2] = 0; a.a[3] = 0; a.a[4] = 0; a.a[5] = dc; a.a[6] = v;
+            args_emit(&a, 7);
+        }
+        a.a[6] = 0;
         a.api = A_NEED;
         for (int d = 0; d < 7; d++) for (int m = 0; m < 8; m++) {
             if (d >= 5 && m) continue; a.a[0] = d; a.a[1] = m & 1; a.a[2] = (m >> 1) & 1; a.a[3] = (m >> 2) & 1; args_emit(&a, 4); }
@@ -506,7 +524,59 @@ static void hist_random_op(char *buf, int allow_fail) {
     }
 }
 
+/* many instances alive at once (every bounded table, pool or counter a change may introduce has some capacity):
+   creates either succeed with fresh positive descriptors or are refused — and a refused create leaves nothing
+   behind: descriptor 0 and other never-issued descriptors stay unknown, the earlier instances keep working */
+static void run_mass(void *va, FILE *out) {
+    int N = *(int *)va; int *ds = malloc(sizeof(int) * N); int nlive = 0, refused = 0, bad = 0;
+    unsigned char data[64]; for (int i = 0; i < 64; i++) data[i] = (unsigned char)(i * 5 + 1);
+    static const int shp[][4] = { {0,2,1,1}, {6,2,1,1}, {3,3,3,3}, {0,4,2,2} };
+    for (int i = 0; i < N; i++) {
+        struct ec_args a; memset(&a, 0, sizeof a); const int *sh = shp[i % 13 == 0 ? 1 + i % 2 : (i % 4 == 3 ? 3 : 0)];
+        a.k = sh[1]; a.m = sh[2]; a.hd = sh[3]; a.ct = CHKSUM_NONE;
+        int d = liberasurecode_instance_create((ec_backend_id_t)sh[0], &a);
+        if (d > 0) {
+            for (int j = 0; j < nlive && j < 64; j++) if (ds[nlive - 1 - j] == d) bad++;   /* recent duplicates (full check below) */
+            ds[nlive++] = d;
+        } else {
+            refused++;
+            /* nothing left behind by the refusal */
+            if (liberasurecode_get_fragment_size(0, 100) >= 0 || liberasurecode_get_fragment_size(d, 100) >= 0 ||
+                liberasurecode_instance_destroy(0) == 0) { fprintf(out, "refused create #%d (rc %d) left an instance behind: descriptor 0 / the error value is accepted", i, d); free(ds); return; }
+        }
+    }
+    /* all distinct */
+    for (int i = 0; i < nlive && !bad; i++) { int d = ds[i]; for (int j = i + 1; j < nlive; j++) if (ds[j] == d) { bad++; break; } }
+    if (bad) { fprintf(out, "duplicate live descriptors among %d instances", nlive); free(ds); return; }
+    /* never-issued descriptors are unknown; a sample of the live ones works */
+    if (liberasurecode_get_fragment_size(0, 100) >= 0) { fprintf(out, "descriptor 0 accepted with %d instances alive", nlive); free(ds); return; }
+    for (int i = 0; i < nlive; i += 37) {
+        char **ed = NULL, **ep = NULL; uint64_t fl = 0;
+        if (liberasurecode_encode(ds[i], (char *)data, 64, &ed, &ep, &fl) != 0) { fprintf(out, "live descriptor %d (instance #%d of %d) refused", ds[i], i, nlive); free(ds); return; }
+        liberasurecode_encode_cleanup(ds[i], ed, ep);
+    }
+    /* destroy in a scrambled order; every destroy succeeds exactly once */
+    for (int i = 0; i < nlive; i++) { int j = (int)(((long)i * 7919) % nlive); (void)j; }
+    for (int step = 0; step < nlive; step++) {
+        int j = (int)(((long)step * 7919 + 13) % nlive);
+        if (ds[j] > 0) { if (liberasurecode_instance_destroy(ds[j]) != 0) { fprintf(out, "destroy of live descriptor %d failed", ds[j]); free(ds); return; } ds[j] = -1; }
+    }
+    for (int j = 0; j < nlive; j++) if (ds[j] > 0) { if (liberasurecode_instance_destroy(ds[j]) != 0) { fprintf(out, "destroy of live descriptor %d failed", ds[j]); free(ds); return; } }
+    free(ds);
+    fprintf(out, "ok");
+    (void)refused;
+}
+
 void suite_hist(int tier) {
+    {
+        int sizes[] = { 1100, 70, 4200 };
+        for (int q = 0; q < (tier ? 3 : 2); q++) {
+            cfg_release_all();
+            op_begin("conc mass %d", sizes[q]); op_sep();      /* model: `ok` (C14.inv_history holds for histories of any length) */
+            guarded(run_mass, &sizes[q]);
+            stat_add("hist.mass_instances", sizes[q]);
+        }
+    }
     int presets[] = { 0, 5, 0x7ffffffd, 0x7ffffffe, 0x7fffffff, -5, -1 };
     /* bounded exhaustive over a small alphabet, depth 4 (quick) / 5 (thorough), 2 slots */
     const char *alpha[] = { "c0:6:2:1:1", "c1:6:3:2:2", "c1:3:3:3:3", "d0", "d1", "u0", "u1", "f0:3:4:4:3", "c0:6:4:2:2:8", "f1:0:3:2:2:64", "D0", "U0", "Q1" };
